@@ -150,7 +150,11 @@ func (c *Ctx) scanTables() *scanTables {
 		}
 		for _, e := range cc.List {
 			call, ok := ast.Unparen(e).(*ast.CallExpr)
-			if !ok || len(call.Args) != 1 {
+			var targ ast.Expr
+			if ok {
+				targ = tokenTypeArg(info, call)
+			}
+			if !ok || targ == nil {
 				st.problems = append(st.problems, "a scan case is not a call of the matching method with a token type: "+exprStr(e))
 				continue
 			}
@@ -159,7 +163,7 @@ func (c *Ctx) scanTables() *scanTables {
 					st.foundFD = d
 				}
 			}
-			st.order = append(st.order, exprStr(call.Args[0]))
+			st.order = append(st.order, exprStr(targ))
 		}
 		return true
 	})
@@ -197,7 +201,11 @@ func (c *Ctx) scanTables() *scanTables {
 				var found *ast.FuncDecl
 				for _, t := range terms {
 					call, ok := t.(*ast.CallExpr)
-					if !ok || len(call.Args) != 1 || info.Types[call.Args[0]].Value == nil {
+					if !ok {
+						return true
+					}
+					targ := tokenTypeArg(info, call)
+					if targ == nil {
 						return true
 					}
 					d := c.declOf(calleeOf(info, call))
@@ -205,7 +213,7 @@ func (c *Ctx) scanTables() *scanTables {
 						return true
 					}
 					found = d
-					order = append(order, exprStr(call.Args[0]))
+					order = append(order, exprStr(targ))
 				}
 				if len(order) >= 3 {
 					st.order, st.foundFD, st.orChain = order, found, be
@@ -257,7 +265,7 @@ func (c *Ctx) scanTables() *scanTables {
 				elem := identObj(info, rs.Value)
 				var found *ast.FuncDecl
 				ast.Inspect(rs.Body, func(y ast.Node) bool {
-					if call, ok := y.(*ast.CallExpr); ok && len(call.Args) == 1 && elem != nil && isObj(info, call.Args[0], elem) {
+					if call, ok := y.(*ast.CallExpr); ok && len(call.Args) >= 1 && elem != nil && argIs(info, call, elem) {
 						if cf := calleeOf(info, call); cf != nil {
 							if d := c.declOf(cf); d != nil {
 								found = d
@@ -649,3 +657,32 @@ func strconvModel(callee string, args []string, sign string) (string, bool) {
 }
 
 var _ = syntax.Perl
+
+// tokenTypeArg: the single constant argument of the call (a token type constant); nil when the
+// call has no or several constant arguments.
+func tokenTypeArg(info *types.Info, call *ast.CallExpr) ast.Expr {
+	var out ast.Expr
+	for _, a := range call.Args {
+		tv, ok := info.Types[a]
+		if !ok || tv.Value == nil {
+			continue
+		}
+		if _, named := tv.Type.(*types.Named); !named {
+			continue // an untyped or basic constant is not a token type
+		}
+		if out != nil {
+			return nil
+		}
+		out = a
+	}
+	return out
+}
+
+func argIs(info *types.Info, call *ast.CallExpr, o types.Object) bool {
+	for _, a := range call.Args {
+		if isObj(info, a, o) {
+			return true
+		}
+	}
+	return false
+}
